@@ -39,8 +39,6 @@ def exactRiffSize (s : MuxState) : Nat :=
     | f :: _ => 4 + padLen f.data.length
     | [] => 0
 
-def metaOK (o : Option Bytes) : Bool := decide ((o.getD []).length ≤ maxMetadataSize)
-
 /-- frame data whose bitstream (after an optional ALPH chunk) has a header every reader accepts -/
 def bitstreamOK (data : Bytes) : Bool :=
   vp8OK (splitAlphaAndBitstream data).2 || vp8lOK (splitAlphaAndBitstream data).2
@@ -48,8 +46,7 @@ def bitstreamOK (data : Bytes) : Bool :=
 def accepted (s : MuxState) : Bool :=
   decide (validate s = .ok ()) &&
   s.frames.all (fun f => bitstreamOK f.data) &&
-  decide (exactRiffSize s ≤ 4294967286) &&
-  metaOK s.iccData && metaOK s.exifData && metaOK s.xmpData
+  (!needsVP8X s || decide (exactRiffSize s ≤ 4294967286))
 
 /-- see `Webp.Props.C14.mux_demux` -/
 def Accepted (s : MuxState) : Prop := accepted s = true
